@@ -113,6 +113,85 @@ def scenario(seed):
         return None, tuple(sig + hist)
 
 
+SPELL_UNIVERSES = [
+    [{"a": v, "b": w} for v in (1, 2) for w in ("x", "y")],
+    [{"a": v, "k": 0} for v in (1, 2, 3)],
+    [{"d": {"c": v}, "c": w} for v in (1, 2) for w in (5, 6)],           # a nested leaf named like a top-level key
+    [{"d": {"c": v}, "c": 5, "e": w} for v in (1, 2) for w in (True, False)],
+    [{"x": {"y": {"z": v}}, "z": w, "y": 1} for v in (1, 2) for w in ("p", "q")],
+    [{"a": 1.5, "b": v} for v in (1, 2)],
+    [{"d": {"c": v}, "c": w, "e": 10 * v + w} for v in (1, 2) for w in (5, 6)],   # a key that is distinguishing but not needed to tell the jobs apart
+]
+
+
+SPELL_STATS = {"views_checked": 0, "rejected": 0}
+
+
+def _flatten(d, prefix=None):
+    for k, v in d.items():
+        k_ = k if prefix is None else prefix + "." + k
+        if isinstance(v, dict) and v:
+            yield from _flatten(v, k_)
+        else:
+            yield k_, v
+
+
+def spelling(useed):
+    """'at a path spelling the job's distinguishing state point keys and values': for every universe, the automatic path and every custom
+    spec '<key>/{<key>}/{{auto}}' naming one (possibly nested) key; grown once (a second view after adding jobs).  Order-insensitive:
+    the path of a job, cut into (key, value) pairs, must be exactly the job's non-constant keys with its own values."""
+    import signac
+    sps = SPELL_UNIVERSES[useed % len(SPELL_UNIVERSES)]
+    keys = sorted({k for sp in sps for k, _ in _flatten(sp)})
+    specs = [None] + [k for k in keys]
+    stats = SPELL_STATS
+    for named in specs:
+        with dir_scratch() as d:
+            os.makedirs(d + "/p")
+            p = signac.init_project(d + "/p")
+            view = d + "/view"
+            half = max(1, len(sps) // 2)
+            for stage, upto in (("first", half), ("grown", len(sps))):
+                for sp in sps[:upto]:
+                    p.open_job(sp).init()
+                cur = list(p)
+                flat = {j.id: dict(_flatten(j.statepoint())) for j in cur}
+                allk = sorted({k for f in flat.values() for k in f})
+                dist = [k for k in allk if not (all(k in f for f in flat.values()) and len({json.dumps(f[k]) for f in flat.values()}) == 1)]
+                kw = {} if named is None else {"path": "%s/{%s}/{{auto}}" % (named, named)}
+                where = f"universe {useed % len(SPELL_UNIVERSES)}, path spec {kw.get('path')!r}, {stage} view of {len(cur)} jobs"
+                before = view_tree(view) if os.path.isdir(view) else {}
+                try:
+                    p.create_linked_view(prefix=view, **kw)
+                except RuntimeError:
+                    # rejected (e.g. '{auto}' with no key left to spell is refused by signac): allowed, but an existing view must be left alone
+                    after = view_tree(view) if os.path.isdir(view) else {}
+                    if after != before:
+                        return f"{where}: the call was rejected but the existing view was altered"
+                    stats["rejected"] += 1
+                    continue
+                except Exception as e:
+                    return f"{where}: create_linked_view raised {type(e).__name__}: {e}"
+                stats["views_checked"] += 1
+                t = view_tree(view)
+                by_target = {v[1]: k for k, v in t.items() if v[0] == "link"}
+                for j in cur:
+                    rel = by_target.get(os.path.realpath(j.path))
+                    if rel is None:
+                        return f"{where}: no link for job {j.statepoint()}"
+                    toks = rel.split(os.sep)[:-1]
+                    f = flat[j.id]
+                    if named is not None:
+                        if toks[:2] != [named, str(f[named])]:
+                            return f"{where}: link {rel} does not start with the named key and its value"
+                        toks = toks[2:]
+                    want = {(k, str(f[k])) for k in dist if k in f and k != named} if len(cur) > 1 else set()
+                    got = set(zip(toks[0::2], toks[1::2]))
+                    if len(toks) % 2 or got != want or len(toks) != 2 * len(want):
+                        return f"{where}: job {j.statepoint()} is linked at {rel}; its distinguishing keys and values are {sorted(want)}"
+    return None
+
+
 def probes():
     import signac
     out = []
@@ -164,9 +243,25 @@ def run(tier="quick", seed=0):
         if bad:
             failures.append({"key": "view:" + str(sig)[:60], "description": bad,
                              "script": script_header() + f"sys.path.insert(0, '/verif')\nfrom pybound.c17 import scenario\nbad, sig = scenario({s})\nassert not bad, bad\n"})
+    for u in range(len(SPELL_UNIVERSES)):
+        if failures:
+            break
+        try:
+            bad = spelling(u)
+        except Exception:
+            import traceback
+            bad = "spelling scenario crashed: " + traceback.format_exc()[-600:]
+        evals += 1
+        distinct.add(("spelling", u))
+        if bad:
+            failures.append({"key": f"view:spelling:{u}", "description": bad,
+                             "script": script_header() + f"sys.path.insert(0, '/verif')\nfrom pybound.c17 import spelling\nbad = spelling({u})\nassert not bad, bad\n"})
     for key, desc in probes():
         failures.append({"key": key, "description": desc, "script": ""})
     return {"scope": "6 state point universes (homogeneous, nested, heterogeneous, unicode / dots / spaces, single job) x histories of 2-5 steps over {create view, add / remove / re-key jobs, "
                      "view of a job_ids subset}; after every view: one link per selected job resolving to its directory, no dead directories, equals a from-scratch build, second run is a no-op; "
-                     "colliding automatic paths must be refused or linked exactly; probes for the repaired defects F20 / F21",
+                     "colliding automatic paths must be refused or linked exactly; probes for the repaired defects F20 / F21; "
+                     "path spelling: 7 universes (incl. nested leaves named like top-level keys) x {automatic path, '<key>/{<key>}/{{auto}}' for every flattened key} x {first view, view after growth}: "
+                     "each link path cut into (key, value) pairs is exactly the job's non-constant keys with its own values "
+                     f"({SPELL_STATS['views_checked']} views checked, {SPELL_STATS['rejected']} specs rejected by signac with the existing view left alone)",
             "evaluations": evals, "distinct_nontrivial": len(distinct), "rule": "a case is one history; distinct by (universe, operation sequence)", "samples": samples, "failures": failures}
